@@ -265,7 +265,7 @@ def firstPassMuAxi (bp : MBlockProp α) : α × α :=
   let t := bp.lamFill
   if bp.lamType == 0 then (bp.mux * t + (1 - t), bp.muy * t + (1 - t))
   else if bp.lamType == 1 then (bp.mux * t + (1 - t), bp.mux / (t + bp.mux * (1 - t)))
-  else if bp.lamType == 2 then (bp.muy * t + (1 - t), bp.muy / (t + bp.muy * (1 - t)))
+  else if bp.lamType == 2 then (bp.muy / (t + bp.muy * (1 - t)), bp.muy * t + (1 - t))
   else (1, 1)
 
 def assembleMAxi (k : MConsts α) (x : AxiExtra α) (c001 c0001 : α) (P : MProblem α) : LinProb α := Id.run do
